@@ -388,9 +388,16 @@ def casadi_to_sympy_dir(ctx, n_trees, depth):
     for _mi in range(max(6, n_trees // 50)):
         nr, nc = [(2, 2), (3, 2), (2, 3), (3, 1), (1, 3), (4, 2)][_mi % 6]
         M = ca.SX(nr, nc)
+        # every second matrix keeps structural zeros (what Jacobians, ca.diag and entry-by-entry construction produce): the
+        # translation must put every entry where the dense view has it
+        sparse_mat = _mi % 2 == 1
         for i in range(nr):
             for j in range(nc):
+                if sparse_mat and (i + 2 * j + _mi // 2) % 3 == 0:
+                    continue
                 M[i, j] = gen.num(2)
+        if sparse_mat:
+            ctx.tally("casadi_to_sympy:sparse_matrix")
         try:
             with warnings.catch_warnings():
                 warnings.simplefilter("ignore")
@@ -509,8 +516,12 @@ class SPGen:
             return self.positive(d) ** sp.Rational(int(self.rng.integers(-3, 6)), int(self.rng.integers(2, 5)))
         if r < 0.72:
             return self.positive(d) ** sp.Float(float(np.round(self.rng.normal() * 1.5, 2)))
-        if r < 0.75:
+        if r < 0.74:
             return self.positive(d) ** int(-self.rng.integers(1, 3))
+        if r < 0.77:
+            # nested powers: an even inner power under a root -- (u**2)**(1/2) is |u|, not u; the inner expression takes both signs
+            inner = self.expr(d - 1) ** int(self.rng.choice([2, 2, 4]))
+            return inner ** sp.Rational(1, int(self.rng.choice([2, 3, 4])))
         if r < 0.92:
             f = [sp.sin, sp.cos, sp.tan, sp.atan][self.rng.integers(4)]
             return f(self.expr(d - 1))
